@@ -367,6 +367,10 @@ func (r *run) checkTick(before map[gostatsd.Source]cloudprovider.VerifEntry, tic
 		}
 	}
 	for s, e := range before {
+		if a, ok := after[s]; ok && !r.c.Peek && a.LastAccess != e.LastAccess {
+			// nothing read the entry between the two dumps: a refresh - whatever it answered - is not a use
+			r.fail("refresh-counts-as-use", fmt.Sprintf("entry %s was last used %v before the tick; after the tick's refresh (nobody read it) its last use is recorded as %v before the tick", s, time.Duration(tickAt.UnixNano()-e.LastAccess), time.Duration(tickAt.UnixNano()-a.LastAccess)))
+		}
 		_, still := after[s]
 		idle := tickAt.UnixNano()-e.LastAccess > r.c.Idle.Nanoseconds()
 		if !still && !idle && !r.c.Peek {
